@@ -186,6 +186,15 @@ class OpaqueV(Val):
         return f"OpaqueV({self.what})"
 
 
+class PyFuncV(Val):
+    """A callable supplied by a rule module (models a method of an external base class)."""
+    def __init__(self, fn, name="pyfunc"):
+        self.fn, self.name = fn, name
+
+    def __repr__(self):
+        return f"PyFuncV({self.name})"
+
+
 class SigParamV(Val):
     """An inspect.Parameter as seen through inspect.signature(cls)."""
     def __init__(self, name, kind, has_default):
